@@ -92,16 +92,17 @@ static int avail(int fd)
 }
 
 // Block until the next poll of the connection has a timing-independent answer: either bytes are
-// waiting, or the writer has written everything and shut down (so "nothing waiting" means end of stream).
+// waiting, or the writer has shut its side down (readable with nothing to read = end of stream, and the
+// shutdown comes after the last byte was written).
 static void settle(int fd, std::atomic<bool>& done)
 {
-	for (int i = 0; i < 2000000; i++)
-	{
-		bool d = done.load();
-		int a = avail(fd);
-		if (a != 0 || d) return;
-		usleep(10);
-	}
+	(void)done;
+	if (avail(fd) != 0) return; // data waiting, or the descriptor is already closed
+	struct pollfd p;
+	p.fd = fd;
+	p.events = POLLIN;
+	p.revents = 0;
+	poll(&p, 1, 20000);
 }
 
 struct Result { std::vector<std::string> msgs; bool negative; bool badalloc; bool closed; int code; Result() : negative(false), badalloc(false), closed(false), code(0) {} };
